@@ -60,6 +60,8 @@ def gen_cases(tier, seed, gen, effort):
     for n in [27, 28, 29, 30, 56, 57, 58, 59, 75, 76, 77, 114, 115, 200, 513][: None if thorough else 12]:
         pool = ["a", "b", "/", " ", "1", "ä"] if n % 2 else ["x", "y", ".", "-"]
         payloads.append("".join(rnd.choice(pool) for _ in range(n)))
+    # text that is not in Unicode normal form (base letter + combining mark, compatibility characters): encoded as written
+    payloads += ["cafe\u0301", "\u212b", "A\u030a", "\u2126m", "x\u0323\u0307y", "\u1100\u1161"]
     cases = []
     for pl in payloads:
         for ch in OFFSET_CHAINS:
